@@ -781,11 +781,12 @@ impl<'forest, I: Interner> SolveState<'forest, I> {
     /// - If the strand was positively dependent on the subgoal, we flounder,
     ///   the subgoal, then return `false`. This strand may be able to be
     ///   retried later.
-    /// - If the strand was negatively dependent on the subgoal, then strand
-    ///   has led nowhere of interest and we return `true`. This strand should
-    ///   be discarded.
+    /// - If the strand was negatively dependent on the subgoal, we will never
+    ///   learn more about the subgoal, but we have not refuted it either: we
+    ///   flounder the subgoal as well, which leaves the strand ambiguous, and
+    ///   return `false`.
     ///
-    /// In other words, we return whether this strand flounders.
+    /// In other words, we return whether this strand should be discarded.
     fn propagate_floundered_subgoal(&mut self, strand: &mut CanonicalStrand<I>) -> bool {
         // This subgoal selection for the strand is finished, so take it
         let selected_subgoal = strand.value.selected_subgoal.take().unwrap();
@@ -820,10 +821,13 @@ impl<'forest, I: Interner> SolveState<'forest, I> {
                 // Here, the table we will be searching for answers is
                 // `?T: Debug`, so it could well flounder.
 
-                // This strand has no solution. It is no longer active,
-                // so it dropped at the end of this scope.
+                // The subgoal is neither proven nor refuted, so the strand
+                // cannot be an answer with the subgoal still pending, and it
+                // is not known to fail either: as for an ambiguous answer to
+                // a negative subgoal, flounder the subgoal.
+                self.flounder_subgoal(&mut strand.value.ex_clause, selected_subgoal.subgoal_index);
 
-                true
+                false
             }
         }
     }
